@@ -690,7 +690,11 @@ func (g *functionGenerator) genCall(call *ssa.CallCommon) (insts []wat.Inst, ret
 		}
 		callee := call.StaticCallee()
 		if callee.Parent() != nil {
-			g.module.AddFunc(newFunctionGenerator(g.prog, g.module, g.tLib).genFunction(callee))
+			// generate an anonymous callee only once: generating it again would
+			// register the types of the closures it contains a second time
+			if fn_name, _ := wir.GetFnMangleName(callee, g.prog.Manifest.MainPkg); g.module.FindFunc(fn_name) == nil {
+				g.module.AddFunc(newFunctionGenerator(g.prog, g.module, g.tLib).genFunction(callee))
+			}
 		}
 
 		if len(callee.LinkName()) > 0 {
@@ -1463,7 +1467,11 @@ func (g *functionGenerator) genMakeDefer(inst *ssa.Defer) (insts []wat.Inst) {
 	case *ssa.Function:
 		callee := inst.Call.StaticCallee()
 		if callee.Parent() != nil {
-			g.module.AddFunc(newFunctionGenerator(g.prog, g.module, g.tLib).genFunction(callee))
+			// generate an anonymous callee only once: generating it again would
+			// register the types of the closures it contains a second time
+			if fn_name, _ := wir.GetFnMangleName(callee, g.prog.Manifest.MainPkg); g.module.FindFunc(fn_name) == nil {
+				g.module.AddFunc(newFunctionGenerator(g.prog, g.module, g.tLib).genFunction(callee))
+			}
 		}
 
 		for i, v := range inst.Call.Args {
